@@ -463,6 +463,14 @@ func Run(j *job.Job, s *job.Sink) {
 			ops = append(ops, op{"goodreadtwo", "zztwomain.yang", "module zztwomain {\n  namespace \"urn:zztwomain\";\n  prefix zt;\n  import zzpair { prefix zp; }\n  leaf l { type zp:t; }\n}\n"}, op{Kind: "process"}, op{Kind: "process"}, op{Kind: "read"})
 			s.Count("histories_with_a_fetched_file_that_holds_two_modules", 1)
 		}
+		// One history in twelve reads a module whose first import is nowhere to be found and whose
+		// second import lies next to it and defines the base of one of its identities: whatever
+		// the run makes of the missing import, the module it does fetch is fetched in time for
+		// its identities to count, so a second run changes nothing.
+		if r.Intn(12) == 0 {
+			ops = append(ops, op{"goodreadmiss", "zzfm.yang", "module zzfm {\n  namespace \"urn:zzfm\";\n  prefix zf;\n  import zznowhere { prefix zn; }\n  import zzidb { prefix zb; }\n  identity x { base zb:y; }\n}\n"}, op{Kind: "process"}, op{Kind: "process"}, op{Kind: "read"})
+			s.Count("histories_with_a_fetched_module_behind_a_missing_import", 1)
+		}
 		if r.Intn(8) == 0 {
 			needs := op{"load", "zzneeds.yang", "module zzneeds {\n  namespace \"urn:zzneeds\";\n  prefix zn;\n  import zzlate { prefix zl; }\n  leaf l { type zl:t; }\n  identity mine { base zl:zlid; }\n}\n"}
 			other := op{"goodread", "zzother.yang", "module zzother {\n  namespace \"urn:zzother\";\n  prefix zo;\n  leaf o { type string; }\n}\n"}
@@ -582,6 +590,20 @@ func Run(j *job.Job, s *job.Sink) {
 					os.WriteFile(filepath.Join(dir, o.Name), []byte(o.Text), 0o644)
 					os.WriteFile(filepath.Join(dir, "zzext.yang"), []byte("module zzext {\n  namespace \"urn:zzext\";\n  prefix ze;\n  import zzbase { prefix zb; }\n  typedef percent { type uint8 { range \"0..100\"; } }\n  augment \"/zb:c\" {\n    leaf load { type percent; }\n    choice how { leaf quick { type empty; } }\n  }\n}\n"), 0o644)
 					os.WriteFile(filepath.Join(dir, "zzbase.yang"), []byte("module zzbase {\n  namespace \"urn:zzbase\";\n  prefix zb;\n  container c { leaf own { type string; } }\n}\n"), 0o644)
+					defer os.RemoveAll(dir)
+					if err := ms.Read(filepath.Join(dir, o.Name)); err != nil {
+						bad("good-text-rejected", err.Error(), nil)
+						return
+					}
+					good = append(good, op{Kind: "goodread", Name: filepath.Join(dir, o.Name)})
+					lastClean, lastLive = false, ""
+				case "goodreadmiss":
+					dir, err := os.MkdirTemp(".", "goodreadmiss")
+					if err != nil {
+						continue
+					}
+					os.WriteFile(filepath.Join(dir, o.Name), []byte(o.Text), 0o644)
+					os.WriteFile(filepath.Join(dir, "zzidb.yang"), []byte("module zzidb {\n  namespace \"urn:zzidb\";\n  prefix zb;\n  identity y;\n  identity y1 { base y; }\n}\n"), 0o644)
 					defer os.RemoveAll(dir)
 					if err := ms.Read(filepath.Join(dir, o.Name)); err != nil {
 						bad("good-text-rejected", err.Error(), nil)
